@@ -81,8 +81,8 @@ theorem build_preserves_user_work_noprune (sem : ScmSem σ κ) (work : κ → ι
 
 /-- The property as stated: after any history of builds (each with its own recipe SCM list, flags
 and SCM/upstream behaviour), `bob clean -s`, `bob clean --attic` and other actions that do not
-remove the item themselves, every work item is still present.  NOT asserted: it is false of the
-model (and of the code), see `user_work_preserved_partial` and finding F-C12-1/2. -/
+remove the item themselves, every work item is still present.  NOT asserted in this generality: the
+model's file system may hold checkouts that Bob has no record of (see `user_work_preserved_partial`). -/
 def user_work_preserved_goal (work : κ → ι → Prop) : Prop :=
   ∀ (h : List (Event σ κ)) (st : St σ κ) (i : ι), (∀ ev, ev ∈ h → EvOk work ev) →
     (∀ f st', Event.other f ∈ h → Present work st'.fs i → Present work (f st').fs i) →
@@ -92,10 +92,11 @@ def user_work_preserved_goal (work : κ → ι → Prop) : Prop :=
 parameters of the following `build` events), user actions (`other`), `bob dev [--clean-checkout]
 [--no-attic]`, `bob clean -s [--dry-run]`, `bob clean --attic [--dry-run]`.
 Added hypothesis `NoLoss`: at no event of the history one of the three exactly described loss
-conditions holds (`Lost`): item below a pruning import SCM (`PrunedBelow`); `bob clean --attic`
-selects an attic directory and the item lies *below* it without being its checked content
-(`NestedInDeletable` - the defect reported as F-C12-1/F-C12-2); `bob clean -s` on a workspace with
-a checkout outside the directory state (`UntrackedWs`); or the user removes the item. -/
+conditions holds (`Lost`): item below a pruning import SCM (`PrunedBelow`); the item lies below an
+attic directory selected by `bob clean --attic` in a directory that is not a registered attic SCM
+(`UnregisteredInDeletable`); `bob clean -s` on a workspace with a checkout outside the directory
+state (`UntrackedWs`); or the user removes the item.  Registered SCM directories - in the workspace or
+in the attic, nested or not - never lose anything. -/
 theorem user_work_preserved_partial (work : κ → ι → Prop) (h : List (Event σ κ)) (st : St σ κ) (i : ι)
     (hok : ∀ ev, ev ∈ h → EvOk work ev) (hnl : NoLoss work h st i) (hp : Present work st.fs i) :
     Present work (run h st).fs i :=
@@ -314,25 +315,65 @@ theorem expendable_table (t : Taints) :
   cases t with
   | mk m e s um ul uk =>
     cases m <;> cases e <;> cases s <;> cases um <;> cases ul <;> cases uk <;>
-      simp [Taints.expendable, Taints.dirty]
+      simp [Taints.expendable, Taints.dirty, Taints.has, Consts.C12.dirtyTaints, Consts.C12.notExpendableTaints]
 
-/-- The attic half of the property as stated: `bob clean --attic` removes an attic SCM directory
-only if the SCM it is registered with reports expendable.  NOT asserted - false of the model and
-of the code (nested registrations are not consulted): findings F-C12-1, F-C12-2. -/
-def clean_attic_expendable_only_goal (sem : ScmSem σ κ) : Prop :=
-  ∀ (st : St σ κ) (n : Nat) (sub : Comps) (s : σ) (k : κ),
-    ((n, sub), some s) ∈ st.atticReg → (Loc.attic n sub, k) ∈ st.fs →
-    (Loc.attic n sub, k) ∉ (cleanAttic sem false st).fs → sem.expendable s (some k) = true
+/-- an inline switch never changes the directory of an SCM: `dir` is not among the properties
+`GitScm.canSwitch` accepts (re-checked against the sets extracted from the current source) -/
+theorem canSwitch_keeps_dir (old new : GitSpec) (h : GitSwitch.canSwitch old new = true) : old.dir = new.dir := by
+  by_contra hne
+  have hd : (old.dir != new.dir) = true := by simpa using hne
+  unfold GitSwitch.canSwitch at h
+  simp only [hd, if_true] at h
+  revert h
+  cases (old.url != new.url) <;> cases (old.branch != new.branch) <;> cases (old.tag != new.tag) <;>
+    cases (old.commit != new.commit) <;> cases (old.useBranchAndCommit != new.useBranchAndCommit) <;>
+    cases (old.submodules != new.submodules && !(!old.submodules && new.submodules)) <;>
+    simp [Consts.C12.gitIgnoredProps, Consts.C12.gitSwitchable]
 
-/-- what the code guarantees for the attic: a directory that is not below a *selected* attic
-directory stays, and every selected directory was registered with an SCM that reports expendable
-for the content found there.  (Weaker than the goal: directories nested below a selected one are
-removed without being consulted.) -/
-theorem clean_attic_expendable_only_partial (sem : ScmSem σ κ) (st : St σ κ) :
+/-- the git commands that move a branch or HEAD of an existing clone are the ones the model
+(`GitOps`) talks about: `reset --keep` behind the "would be lost" guard, `merge --ff-only`, plain
+`checkout` / `checkout -b` (no `--force`, no `--hard`, no `clean`), and `switch` refuses a moved
+detached HEAD.  Extracted from the current source on every run. -/
+theorem git_commands_as_modelled :
+    Consts.C12.resetCmd = ["git", "reset", "--keep"] ∧
+    Consts.C12.forwardCmd = ["git", "merge", "--ff-only", "refs/remotes/origin/"] ∧
+    Consts.C12.moverWords = ["--ff-only", "--keep", "--no-recurse-submodules", "--onto", "-b", "-c", "-q",
+      "checkout", "merge", "rebase", "reset"] ∧
+    Consts.C12.lostGuard = true ∧ Consts.C12.switchRefusals.length = 2 := by
+  decide
+
+/-- **`bob clean --attic` without `--force` removes a registered attic SCM directory only if the
+SCM it is registered with reports `expendable`** - also when it is removed as part of a parent
+attic directory (nested SCMs go to the attic with their parent and are registered separately;
+fixed findings F-C12-1, F-C12-2). -/
+theorem clean_attic_expendable_only (sem : ScmSem σ κ) (st : St σ κ) (n : Nat) (sub : Comps) (s : σ) (k : κ)
+    (hreg : ((n, sub), some s) ∈ st.atticReg) (hm : (Loc.attic n sub, k) ∈ st.fs)
+    (hrm : (Loc.attic n sub, k) ∉ (cleanAttic sem false st).fs) :
+    sem.expendable s (contentAt st.fs (.attic n sub)) = true := by
+  by_cases hcov : ∃ key, key ∈ atticDeletable sem st ∧ (Loc.attic n sub).under (.attic key.1 key.2) = true
+  · obtain ⟨key, hkey, hu⟩ := hcov
+    have hpres : atticPresent st (n, sub) = true := by
+      unfold atticPresent
+      rw [List.any_eq_true]
+      exact ⟨(.attic n sub, k), hm, under_refl _⟩
+    have hbel : regBelow key (n, sub) = true := by simpa [regBelow, Loc.under] using hu
+    have := atticDeletable_expendable sem st key hkey ((n, sub), some s) hreg hpres hbel
+    simpa [regExpendable] using this
+  · exfalso
+    apply hrm
+    apply cleanAttic_keeps sem st _ hm
+    intro key hkey
+    cases hu : (Loc.attic n sub).under (.attic key.1 key.2) with
+    | false => rfl
+    | true => exact absurd ⟨key, hkey, hu⟩ hcov
+
+/-- whatever `bob clean --attic` removes lies at or below a selected attic directory, and everything
+registered at or below a selected directory is expendable -/
+theorem clean_attic_selection (sem : ScmSem σ κ) (st : St σ κ) :
     (∀ e, e ∈ st.fs → (∀ k, k ∈ atticDeletable sem st → e.1.under (.attic k.1 k.2) = false) →
         e ∈ (cleanAttic sem false st).fs) ∧
-    (∀ k, k ∈ atticDeletable sem st →
-        ∃ s, (k, some s) ∈ st.atticReg ∧ sem.expendable s (contentAt st.fs (.attic k.1 k.2)) = true) :=
+    (∀ k, k ∈ atticDeletable sem st → ∀ e', e' ∈ st.atticReg → atticPresent st e'.1 = true →
+        regBelow k e'.1 = true → regExpendable sem st e' = true) :=
   ⟨fun e he hk => cleanAttic_keeps sem st e he hk, fun k hk => atticDeletable_expendable sem st k hk⟩
 
 end C12
